@@ -138,7 +138,7 @@ fn run_corpus(spec: &PropSpec, ctx: &Ctx) -> ChunkResult {
             }
         };
         ctx.note_current(&json!({"replay_file": f.display().to_string(), "case": rf.case}));
-        let vs = (spec.replay)(&rf.case, ctx.tier);
+        let vs = on_fresh_thread(|| (spec.replay)(&rf.case, ctx.tier));
         res.count("corpus_cases", 1);
         let fname = f.file_name().unwrap().to_string_lossy().to_string();
         if let Some(key) = rf.expect.strip_prefix("known:") {
@@ -407,7 +407,7 @@ pub fn replay_main(prop: &str, path: &str) -> i32 {
     };
     let v: Value = serde_json::from_str(&s).expect("json");
     let case = if v.get("case").is_some() && v.get("property").is_some() { v["case"].clone() } else { v };
-    let vs = (spec.replay)(&case, Tier::Quick);
+    let vs = on_fresh_thread(|| (spec.replay)(&case, Tier::Quick));
     let findings = load_findings();
     let mut rc = 0;
     for v in &vs {
@@ -425,4 +425,9 @@ pub fn replay_main(prop: &str, path: &str) -> i32 {
         println!("{}: replay of {} holds", spec.id, path);
     }
     rc
+}
+
+/// Shuttle keeps per-thread state; every corpus file is replayed on its own OS thread.
+fn on_fresh_thread<R: Send>(f: impl FnOnce() -> R + Send) -> R {
+    std::thread::scope(|s| std::thread::Builder::new().stack_size(64 << 20).spawn_scoped(s, f).expect("spawn replay thread").join().unwrap_or_else(|p| std::panic::resume_unwind(p)))
 }
